@@ -29,9 +29,9 @@ def main():
         env = wh.setup_env(virtual_sleep=True)
 
         async def serve():
-            import websockets
-            server = await websockets.serve(env["connector"].handler, "127.0.0.1", 0, max_size=None)
-            print("READY", server.sockets[0].getsockname()[1], flush=True)
+            # started by the repository's own connector.run_server (whatever it does at start-up happens here too)
+            srv = await wh.Server().start()
+            print("READY", srv.port, flush=True)
             await asyncio.Future()
         asyncio.run(serve())
         return 0
